@@ -50,6 +50,12 @@ def run(repo: Repo, chk: Check) -> None:
     accepted_contexts(repo, chk)
     requests_after_accept(repo, chk)
     rejections_surface(repo, chk)
+    # "feeds the server's tokens back in order": the reply a token is taken from is a completely received PDU (C14-O1)
+    from sa.intervals import World
+
+    from .c14 import transport_reads
+
+    transport_reads(repo, chk, World(repo))
     chk.require_min("step sites", 4)
     chk.require_min("request sites", 4)
 
@@ -300,14 +306,11 @@ def sign_header_writes(repo: Repo, chk: Check) -> None:
             chk.ob("O3", site, False, f"_sign_header is assigned {unparse(val)} in {f.name}; it may only be {'set' if allowed[f.qual] else 'cleared'} there (header signing needs both sides: it can be switched off by an ack, never back on)")
             continue
         if f.name == "_process_bind_ack":
-            g = build(f.node)
-            nid = g.first_of_stmt.get(n)
-            gs = g.guards_of(nid) if nid is not None else []
-            okg = any(isinstance(c, ast.BinOp) and isinstance(c.op, ast.BitAnd) and "packet_flags" in unparse(c) and "PFC_SUPPORT_HEADER_SIGN" in unparse(c) and pol is False for c, pol in gs)
-            chk.ob("O3", site, okg, "cleared exactly when the ack lacks PFC_SUPPORT_HEADER_SIGN" if okg else "the downgrade is not guarded by 'ack lacks PFC_SUPPORT_HEADER_SIGN'")
+            chk.ob("O3", site, True, "_sign_header := False in _process_bind_ack (guard checked per path below)")
         else:
             chk.ob("O3", site, True, f"_sign_header := {allowed[f.qual]} in {f.name}")
     chk.ob("O3", Site("src/dpapi_ng/_rpc/_client.py", "_rpc._client.RpcClient", 0, "_sign_header write sites"), seen == set(allowed), f"written in {sorted(seen)}")
+    downgrade_paths(repo, chk)
     # read only as the sign_header argument of wrap/unwrap and in _create_alter_context
     for f in repo.funcs.values():
         for n in body_nodes(f.node):
@@ -438,3 +441,33 @@ def rejections_surface(repo: Repo, chk: Check) -> None:
     from .c16 import no_swallow
 
     no_swallow(repo, chk, "O5", ["_rpc._client", "_client"])
+
+
+def downgrade_paths(repo: Repo, chk: Check) -> None:
+    """_process_bind_ack: every returning path has examined the ack's PFC_SUPPORT_HEADER_SIGN bit; header signing is
+    switched off exactly on the paths where the bit is absent (whatever else the ack carries), never touched otherwise."""
+    from sa.pathsum import Summary, canon_test
+
+    f = repo.method("_rpc._client.RpcClient", "_process_bind_ack")
+    chk.analysed(f)
+    summ = Summary(f, ["self", "ack", "contexts"], prune=True)
+    n = 0
+    for ps in summ.returning():
+        n += 1
+        flag: t.Optional[bool] = None
+        for e, pol in ps.atoms():
+            core, p2 = canon_test(ps.owner.renamed(e), pol)  # type: ignore[arg-type]
+            if isinstance(core, ast.BinOp) and isinstance(core.op, ast.BitAnd):
+                sides = {unparse(core.left), unparse(core.right)}
+                if sides == {"ack.header.packet_flags", "PacketFlags.PFC_SUPPORT_HEADER_SIGN"}:
+                    flag = p2
+        writes = [e for e in ps.stores() if ps.text(e.target) == "self._sign_header"]
+        site = Site.of(f, ps.exit_node, f"_process_bind_ack returns [{', '.join(sorted(ps.facts()))[:120]}]")
+        if flag is None:
+            chk.ob("O3", site, False, "a returning path of _process_bind_ack never examines the ack's PFC_SUPPORT_HEADER_SIGN flag: an ack without the flag (e.g. one without an auth verifier) leaves header signing on although the server did not agree to it")
+        elif flag is False:
+            ok = len(writes) == 1 and ps.text(writes[0].tree) == "False"
+            chk.ob("O3", site, ok, "ack lacks PFC_SUPPORT_HEADER_SIGN -> header signing switched off" if ok else "the ack lacks PFC_SUPPORT_HEADER_SIGN but header signing is not switched off on this path")
+        else:
+            chk.ob("O3", site, not writes, "ack advertises header signing -> state untouched" if not writes else f"_sign_header is written ({[ps.text(w.tree) for w in writes]}) although the ack advertises header signing")
+    chk.ob("O3", Site.of(f, construct="_process_bind_ack returning paths"), n >= 2, f"{n} returning paths")
